@@ -1,6 +1,7 @@
 mod boxsched;
 mod charsdump;
 mod mtrace;
+mod nucsched;
 mod ptrace;
 mod sched;
 mod sorttrace;
@@ -37,6 +38,7 @@ fn main() {
         "score-trace" => strace::run(&get("tier", "quick"), get("seed", "1").parse().unwrap(), get("shards", "8").parse().unwrap(), &get("out", "/verif/work/strace")),
         "sort-trace" => sorttrace::run(&get("tier", "quick"), get("seed", "1").parse().unwrap(), get("shards", "8").parse().unwrap(), &get("out", "/verif/work/sorttrace")),
         "boxcar-sched" => boxsched::run(&get("tier", "quick"), get("seed", "1").parse().unwrap(), get("shards", "8").parse().unwrap(), &get("out", "/verif/work/boxsched"), a.get("only").map(|s| s.as_str())),
+        "nucleo-sched" => nucsched::run(&get("tier", "quick"), get("seed", "1").parse().unwrap(), get("shards", "8").parse().unwrap(), &get("out", "/verif/work/nucsched"), a.get("only").map(|s| s.as_str()), a.get("shard").map(|s| s.parse().unwrap()), get("from", "0").parse().unwrap()),
         "matcher-trace" => {
             let plan = mtrace::Plan {
                 tier: get("tier", "quick"),
